@@ -50,7 +50,8 @@ type frame struct {
 	caller           *frame
 	fn               *ssa.Function
 	block, prevBlock *ssa.BasicBlock
-	env              map[ssa.Value]value
+	env              []value
+	info             *fnInfo
 	locals           []value
 	defers           *deferred
 	result           value
@@ -60,6 +61,45 @@ type frame struct {
 	cur              ssa.Instruction
 	symVisits        map[ssa.Instruction]int
 }
+
+// fnInfo numbers the SSA values of a function so that frames can keep them in a slice.
+type fnInfo struct {
+	index map[ssa.Value]int
+	n     int
+}
+
+func (e *Engine) fnInfo(fn *ssa.Function) *fnInfo {
+	if v, ok := e.finfo.Load(fn); ok {
+		return v.(*fnInfo)
+	}
+	fi := &fnInfo{index: map[ssa.Value]int{}}
+	add := func(v ssa.Value) {
+		if _, ok := fi.index[v]; !ok {
+			fi.index[v] = fi.n
+			fi.n++
+		}
+	}
+	for _, p := range fn.Params {
+		add(p)
+	}
+	for _, fv := range fn.FreeVars {
+		add(fv)
+	}
+	for _, l := range fn.Locals {
+		add(l)
+	}
+	for _, b := range fn.Blocks {
+		for _, in := range b.Instrs {
+			if v, ok := in.(ssa.Value); ok {
+				add(v)
+			}
+		}
+	}
+	e.finfo.Store(fn, fi)
+	return fi
+}
+
+func (fr *frame) set(k ssa.Value, v value) { fr.env[fr.info.index[k]] = v }
 
 func mustDeref(t types.Type) types.Type {
 	if p, ok := t.Underlying().(*types.Pointer); ok {
@@ -82,8 +122,8 @@ func (fr *frame) get(key ssa.Value) value {
 		}
 		return fr.i.global(key)
 	}
-	if r, ok := fr.env[key]; ok {
-		return r
+	if k, ok := fr.info.index[key]; ok {
+		return fr.env[k]
 	}
 	panic(fmt.Sprintf("get: no value for %T: %v", key, key.Name()))
 }
@@ -132,35 +172,35 @@ func visitInstr(fr *frame, instr ssa.Instruction) continuation {
 	case *ssa.DebugRef:
 
 	case *ssa.UnOp:
-		fr.env[instr] = i.unop(fr, instr, fr.get(instr.X))
+		fr.set(instr, i.unop(fr, instr, fr.get(instr.X)))
 
 	case *ssa.BinOp:
-		fr.env[instr] = i.binop(fr, instr.Op, instr.X.Type(), instr.Y.Type(), fr.get(instr.X), fr.get(instr.Y))
+		fr.set(instr, i.binop(fr, instr.Op, instr.X.Type(), instr.Y.Type(), fr.get(instr.X), fr.get(instr.Y)))
 
 	case *ssa.Call:
 		fn, args := prepareCall(fr, &instr.Call)
-		fr.env[instr] = call(fr.i, fr, instr.Pos(), fn, args)
+		fr.set(instr, call(fr.i, fr, instr.Pos(), fn, args))
 
 	case *ssa.ChangeInterface:
-		fr.env[instr] = fr.get(instr.X)
+		fr.set(instr, fr.get(instr.X))
 
 	case *ssa.ChangeType:
-		fr.env[instr] = fr.get(instr.X)
+		fr.set(instr, fr.get(instr.X))
 
 	case *ssa.Convert:
-		fr.env[instr] = i.conv(fr, instr.Type(), instr.X.Type(), fr.get(instr.X))
+		fr.set(instr, i.conv(fr, instr.Type(), instr.X.Type(), fr.get(instr.X)))
 
 	case *ssa.SliceToArrayPointer:
-		fr.env[instr] = sliceToArrayPointer(instr.Type(), instr.X.Type(), fr.get(instr.X))
+		fr.set(instr, sliceToArrayPointer(instr.Type(), instr.X.Type(), fr.get(instr.X)))
 
 	case *ssa.MakeInterface:
-		fr.env[instr] = iface{t: instr.X.Type(), v: fr.get(instr.X)}
+		fr.set(instr, iface{t: instr.X.Type(), v: fr.get(instr.X)})
 
 	case *ssa.Extract:
-		fr.env[instr] = fr.get(instr.Tuple).(tuple)[instr.Index]
+		fr.set(instr, fr.get(instr.Tuple).(tuple)[instr.Index])
 
 	case *ssa.Slice:
-		fr.env[instr] = i.slice(fr, fr.get(instr.X), fr.get(instr.Low), fr.get(instr.High), fr.get(instr.Max))
+		fr.set(instr, i.slice(fr, fr.get(instr.X), fr.get(instr.Low), fr.get(instr.High), fr.get(instr.Max)))
 
 	case *ssa.Return:
 		switch len(instr.Results) {
@@ -221,15 +261,15 @@ func visitInstr(fr *frame, instr ssa.Instruction) continuation {
 
 	case *ssa.MakeChan:
 		n := i.concInt(fr, fr.get(instr.Size), true, "chan size")
-		fr.env[instr] = i.makeChan(instr.Type().Underlying().(*types.Chan).Elem(), int(n))
+		fr.set(instr, i.makeChan(instr.Type().Underlying().(*types.Chan).Elem(), int(n)))
 
 	case *ssa.Alloc:
 		var addr *value
 		if instr.Heap {
 			addr = new(value)
-			fr.env[instr] = addr
+			fr.set(instr, addr)
 		} else {
-			addr = fr.env[instr].(*value)
+			addr = fr.get(instr).(*value)
 		}
 		*addr = zero(mustDeref(instr.Type()))
 
@@ -247,22 +287,22 @@ func visitInstr(fr *frame, instr ssa.Instruction) continuation {
 		for k := range sl {
 			sl[k] = zero(tElt)
 		}
-		fr.env[instr] = sl[:ln]
+		fr.set(instr, sl[:ln])
 
 	case *ssa.MakeMap:
-		fr.env[instr] = makeMap(instr.Type().Underlying().(*types.Map).Key(), 0)
+		fr.set(instr, makeMap(instr.Type().Underlying().(*types.Map).Key(), 0))
 
 	case *ssa.Range:
-		fr.env[instr] = i.rangeIter(fr, fr.get(instr.X), instr.X.Type())
+		fr.set(instr, i.rangeIter(fr, fr.get(instr.X), instr.X.Type()))
 
 	case *ssa.Next:
-		fr.env[instr] = fr.get(instr.Iter).(iter).next()
+		fr.set(instr, fr.get(instr.Iter).(iter).next())
 
 	case *ssa.FieldAddr:
-		fr.env[instr] = &(*fr.get(instr.X).(*value)).(structure)[instr.Field]
+		fr.set(instr, &(*fr.get(instr.X).(*value)).(structure)[instr.Field])
 
 	case *ssa.Field:
-		fr.env[instr] = fr.get(instr.X).(structure)[instr.Field]
+		fr.set(instr, fr.get(instr.X).(structure)[instr.Field])
 
 	case *ssa.IndexAddr:
 		x := fr.get(instr.X)
@@ -278,14 +318,14 @@ func visitInstr(fr *frame, instr ssa.Instruction) continuation {
 		}
 		if s, ok := idx.(sym); ok {
 			if onlyLoaded(instr) && len(cells) <= 512 {
-				fr.env[instr] = &symref{cells: cells, idx: s.t, signed: kindSigned(basicOf(instr.Index.Type()).Kind())}
+				fr.set(instr, &symref{cells: cells, idx: s.t, signed: kindSigned(basicOf(instr.Index.Type()).Kind())})
 				break
 			}
 			k := i.symIndex(fr, s, instr.Index.Type(), len(cells))
-			fr.env[instr] = &cells[k]
+			fr.set(instr, &cells[k])
 			break
 		}
-		fr.env[instr] = &cells[asInt64(idx)]
+		fr.set(instr, &cells[asInt64(idx)])
 
 	case *ssa.Index:
 		x := fr.get(instr.X)
@@ -300,13 +340,13 @@ func visitInstr(fr *frame, instr ssa.Instruction) continuation {
 			panic(fmt.Sprintf("unexpected x type in Index: %T", x))
 		}
 		if s, ok := idx.(sym); ok {
-			fr.env[instr] = i.symLoad(fr, &symref{cells: cells, idx: s.t, signed: kindSigned(basicOf(instr.Index.Type()).Kind())})
+			fr.set(instr, i.symLoad(fr, &symref{cells: cells, idx: s.t, signed: kindSigned(basicOf(instr.Index.Type()).Kind())}))
 			break
 		}
-		fr.env[instr] = cells[asInt64(idx)]
+		fr.set(instr, cells[asInt64(idx)])
 
 	case *ssa.Lookup:
-		fr.env[instr] = i.lookup(fr, instr, fr.get(instr.X), fr.get(instr.Index))
+		fr.set(instr, i.lookup(fr, instr, fr.get(instr.X), fr.get(instr.Index)))
 
 	case *ssa.MapUpdate:
 		m := fr.get(instr.Map).(*hashmap)
@@ -316,14 +356,14 @@ func visitInstr(fr *frame, instr ssa.Instruction) continuation {
 		m.insert(i, fr, i.mapKey(fr, m, fr.get(instr.Key)), fr.get(instr.Value))
 
 	case *ssa.TypeAssert:
-		fr.env[instr] = typeAssert(fr.i, instr, fr.get(instr.X).(iface))
+		fr.set(instr, typeAssert(fr.i, instr, fr.get(instr.X).(iface)))
 
 	case *ssa.MakeClosure:
 		var bindings []value
 		for _, binding := range instr.Bindings {
 			bindings = append(bindings, fr.get(binding))
 		}
-		fr.env[instr] = &closure{instr.Fn.(*ssa.Function), bindings}
+		fr.set(instr, &closure{instr.Fn.(*ssa.Function), bindings})
 
 	case *ssa.Phi:
 		panic("unreachable")
@@ -351,7 +391,7 @@ func visitInstr(fr *frame, instr ssa.Instruction) continuation {
 				r = append(r, v)
 			}
 		}
-		fr.env[instr] = r
+		fr.set(instr, r)
 
 	default:
 		panic(fmt.Sprintf("unexpected instruction: %T", instr))
@@ -436,18 +476,19 @@ func callSSA(i *interpreter, caller *frame, g *goroutine, callpos token.Pos, fn 
 		i.ps.funcs[fn] = true
 	}
 
-	fr.env = make(map[ssa.Value]value)
+	fr.info = i.eng.fnInfo(fn)
+	fr.env = make([]value, fr.info.n)
 	fr.block = fn.Blocks[0]
 	fr.locals = make([]value, len(fn.Locals))
 	for k, l := range fn.Locals {
 		fr.locals[k] = zero(mustDeref(l.Type()))
-		fr.env[l] = &fr.locals[k]
+		fr.set(l, &fr.locals[k])
 	}
 	for k, p := range fn.Params {
-		fr.env[p] = args[k]
+		fr.set(p, args[k])
 	}
 	for k, fv := range fn.FreeVars {
-		fr.env[fv] = env[k]
+		fr.set(fv, env[k])
 	}
 	for fr.block != nil {
 		runFrame(fr)
@@ -512,7 +553,7 @@ func executePhis(fr *frame) []ssa.Instruction {
 			fr.phitemps = append(fr.phitemps, fr.get(phi.Edges[predIndex]))
 		}
 		for i, phi := range phis {
-			fr.env[phi.(*ssa.Phi)] = fr.phitemps[i]
+			fr.set(phi.(*ssa.Phi), fr.phitemps[i])
 		}
 	}
 	return nonPhis
